@@ -254,6 +254,8 @@ def run(ctx):
     g = [x for x in P.globals.values() if x.get("name") == "enabled" and x.get("static_local")]
     ctx.check(tl or any(x.get("tls") for x in g), "silencing-flag-thread_local", "storage_class", en.loc(),
               "LogStream::enabled()'s flag is thread_local", "the silencing flag is not thread_local: DISABLE in one thread silences all threads")
+    from .C17 import kmsg_path_ignores_silencing
+    kmsg_path_ignores_silencing(ctx)
     km = ctx.fn1("Oomd::Log::kmsgLog")
     ctx.check(not km.calls("LogStream::enabled") and not field_reads(km, "skip_"), "kmsg-independent-of-silencing", "who-may-call", km.loc(),
               "kmsgLog does not consult the silencing flag", "kmsgLog consults the silencing flag")
